@@ -15,6 +15,7 @@ CONSTANTS LeafConfs,   \* set of leaf configurations (each a sequence of [name, 
           Decos,       \* subset of {"none", "lit", "ref", "alias", "bidx"}: extra argument of a layer
           MaxLayers,   \* stack height
           Mods,        \* per level m: keep a candidate layer iff its (seeded, deterministic) hash is 0 modulo m; 1 = all
+          PatMods,     \* per level m: expand a pattern at all only iff its hash (with the parent's) is 0 modulo m
           Salt,        \* seed of that hash
           ReqCap       \* every non-empty subset of the top layer's blocks is requested up to this many blocks
 
@@ -58,6 +59,7 @@ Feature(s, p, as, nx, cc, d) ==
   p.id * 31 + SumF([i \in DOMAIN as |-> (i * 7 + NameIdx(s, as[i].name)) * 13], 1)
   + SumF([i \in DOMAIN nx |-> nx[i].n * 11], 1) + (IF cc THEN 3 ELSE 0) + DecoIdx(d) * 5
 Kept(hh, lvl, f) == ((hh * 37 + f + Salt) % Mods[lvl]) = 0
+PatKept(hh, lvl, p) == ((hh * 13 + p.id * 7 + Salt) % PatMods[lvl]) = 0
 
 \* candidates: [L |-> layer, f |-> feature]
 NewLayers(s, hh) ==
@@ -68,7 +70,7 @@ NewLayers(s, hh) ==
                               as \in ArgTuples(s, p.ais), nx \in NaxChoices(p.nax),
                               cc \in (IF HasDummies(p) THEN BOOLEAN ELSE {FALSE}), d \in Decos }
                      : Kept(hh, lvl, y.f) /\ LayerOK(y.L) } }
-          : p \in Pats }
+          : p \in {q \in Pats : PatKept(hh, lvl, q)} }
 
 Push(s, L) == [s EXCEPT !.layers = Append(@, L)]
 
